@@ -185,13 +185,62 @@ def table_features(b):
     return f
 
 
-def by_features(lines, n, rnd):
+def behaviour_features(b):
+    """what the scheduler model DID on a layout (one TLC behaviour): the e2e layouts are chosen so that every kind of
+    model transition is exercised in the engine - a cut-off clamp that is active (also when the fetch takes every loaded
+    block while segments are still waiting), records carried over in unsentRRCs, a segment that straddles the cut-off and is
+    revisited, later rounds, tie groups, fetches without blocks - plus how the segment ranges relate to each other"""
+    f = set()
+    rem = 0
+    rounds = 0
+    steps = b["steps"]
+    for si, st in enumerate(steps):
+        if st["a"] == "GetBlocks":
+            rem = len(st["remaining"])
+            if st["taken"]:
+                rounds += 1
+            if set(st["taken"]) & set(st["unproc"]):
+                f.add(("segment-straddles-cut-off",))
+            if len(st["newBlocks"]) < sum(len(b["cfg"][sg - 1]) for sg in st["taken"]):
+                f.add(("block-left-for-a-later-round-or-already-done",))
+        elif st["a"] == "Fetch":
+            n = len(st["next"])
+            takes_all = rem > 0 and n == rem
+            if st["endTime"] != st["endTime0"]:
+                f.add(("clamp-active", "takes-all-loaded-blocks" if takes_all else "blocks-left"))
+                if takes_all and any(x["a"] == "GetBlocks" and x["taken"] for x in steps[si + 1:]):
+                    f.add(("clamp-active", "takes-all-loaded-blocks", "segments-still-waiting"))
+            if st["nmerged"] > len(st["released"]):
+                f.add(("unsent-carried-over",))
+            if n == 0:
+                f.add(("fetch-without-blocks",))
+            if n >= 2:
+                f.add(("tie-group-or-several-blocks",))
+            rem -= n
+    f.add(("rounds", min(rounds, 3)))
+    segr = [(min(min(x) for x in sg), max(max(x) for x in sg)) for sg in b["cfg"]]
+    for i, a in enumerate(segr):
+        for c in segr[i + 1:]:
+            if a[1] < c[0] or c[1] < a[0]:
+                f.add(("segments", "disjoint"))
+            elif a == c:
+                f.add(("segments", "same-range"))
+            elif (a[0] <= c[0] and c[1] <= a[1]) or (c[0] <= a[0] and a[1] <= c[1]):
+                f.add(("segments", "nested"))
+            else:
+                f.add(("segments", "partial-overlap"))
+    f.add(("nseg", len(b["cfg"])))
+    return f
+
+
+def by_features(lines, n, rnd, feat=None):
     """n lines such that every feature is represented as evenly as possible (greedy round-robin over the features)"""
+    feat = feat or table_features
     if n is None or len(lines) <= n:
         return list(lines)
     idx = {}
     for i, b in enumerate(lines):
-        for f in table_features(b):
+        for f in feat(b):
             idx.setdefault(f, []).append(i)
     feats = sorted(idx, key=repr)
     for f in feats:
@@ -629,10 +678,12 @@ def run(chk):
         mcs = [("MC_Searcher_q_rf1", "recentFirst maxBlocks=1, 2 seg x <=2 blk x <=2 rec, ts 1..3"),
                ("MC_Searcher_q_rf2", "recentFirst maxBlocks=2"),
                ("MC_Searcher_q_rl1", "recentLast maxBlocks=1 (all but NoLivelock)"),
-               ("MC_Searcher_q_rf3seg", "recentFirst, 3 segments x <=2 single-record blocks, maxBlocks=2")]
+               ("MC_Searcher_q_rf3seg", "recentFirst, 3 segments x <=2 single-record blocks, maxBlocks=2"),
+               ("MC_Searcher_q_rf3ov", "recentFirst, 3 segments x 1 block x <=2 records, ts 1..4 (partial overlaps / containment of three ranges), maxBlocks=2")]
     else:
         mcs = [("MC_Searcher_rf1", "recentFirst maxBlocks=1, 2 seg x <=2 blk x <=2 rec, ts 1..4"), ("MC_Searcher_rf2", "maxBlocks=2"),
                ("MC_Searcher_rf3", "maxBlocks=3"), ("MC_Searcher_rl1", "recentLast maxBlocks=1"), ("MC_Searcher_rl2", "recentLast maxBlocks=2"),
+               ("MC_Searcher_q_rf3ov", "recentFirst, 3 segments x 1 block x <=2 records, ts 1..4, maxBlocks=2"),
                ("MC_Searcher_deep_rf2", "recentFirst, 3 seg x <=2 blk x <=2 rec, ts 1..3, maxBlocks=2")]
     if os.environ.get("VERIF_DEV_SKIP_MC"):   # development only (mutant runs): the model runs do not depend on the Go tree
         mcs = []
@@ -672,11 +723,12 @@ def run(chk):
         # ---- scheduler, fn level
         if quick:
             gens = [("Gen_Searcher_q_rf1", "recentFirst maxBlocks=1"), ("Gen_Searcher_q_rf2", "recentFirst maxBlocks=2"),
-                    ("Gen_Searcher_q_rl1", "recentLast maxBlocks=1"), ("Gen_Searcher_q_rf3seg", "3 segments")]
+                    ("Gen_Searcher_q_rl1", "recentLast maxBlocks=1"), ("Gen_Searcher_q_rf3seg", "3 segments"),
+                    ("Gen_Searcher_q_rf3ov", "3 overlapping segments")]
         else:
             gens = [("Gen_Searcher_rf1", "recentFirst maxBlocks=1"), ("Gen_Searcher_rf2", "maxBlocks=2"), ("Gen_Searcher_rf3", "maxBlocks=3"),
                     ("Gen_Searcher_rl1", "recentLast maxBlocks=1"), ("Gen_Searcher_rl2", "recentLast maxBlocks=2"),
-                    ("Gen_Searcher_q_rf3seg", "3 segments")]
+                    ("Gen_Searcher_q_rf3seg", "3 segments"), ("Gen_Searcher_q_rf3ov", "3 overlapping segments")]
         _phase("build")
         kept = {}
         total, drift = searcher_fn(chk, binary, sc, gens, kept)
@@ -699,22 +751,23 @@ def run(chk):
     # ---- e2e
     drv = vlib.build_driver()
     beh_rf = []
-    for cfg in (("Gen_Searcher_q_rf2", "Gen_Searcher_q_rf3seg") if quick else ("Gen_Searcher_rf2", "Gen_Searcher_q_rf3seg")):
+    for cfg in (("Gen_Searcher_q_rf2", "Gen_Searcher_q_rf3seg", "Gen_Searcher_q_rf3ov") if quick else
+                ("Gen_Searcher_rf2", "Gen_Searcher_q_rf3seg", "Gen_Searcher_q_rf3ov")):
         beh_rf += kept[cfg]
-    # distinct layouts, prefer overlapping / tied ones
+    # distinct layouts; the features of a layout are those of all its behaviours (orders of tied segments)
     layouts = {}
     for b in beh_rf:
-        layouts[json.dumps(b["cfg"])] = b["cfg"]
-    lay = list(layouts.values())
-    rnd.shuffle(lay)
-
-    def interesting(cfg):
-        segr = [(min(min(b) for b in s), max(max(b) for b in s)) for s in cfg]
-        return any(a[0] <= b[1] and b[0] <= a[1] for i, a in enumerate(segr) for b in segr[i + 1:])
-    lay.sort(key=lambda c: not interesting(c))
-    n_lay = 48 if quick else 600
+        k = json.dumps(b["cfg"])
+        if k not in layouts:
+            layouts[k] = {"cfg": b["cfg"], "feat": set()}
+        layouts[k]["feat"] |= behaviour_features(b)
+    lay = [x for x in layouts.values() if sum(len(bk) for sg in x["cfg"] for bk in sg) >= 2]
+    lay.sort(key=lambda x: json.dumps(x["cfg"]))
+    n_lay = 96 if quick else 700
+    chosen = by_features(lay, n_lay, rnd, feat=lambda x: x["feat"])
+    chk.cov["e2e_layout_features"] = sorted(set(repr(f) for x in chosen for f in x["feat"]))
     cases = []
-    for i, cfg in enumerate(lay[:n_lay]):
+    for i, cfg in enumerate(x["cfg"] for x in chosen):
         nrec = sum(len(b) for s in cfg for b in s)
         cases.append({"cfg": cfg, "maxb": rnd.choice([1, 1, 2, 3]), "rotate_last": rnd.random() < 0.5, "seed": chk.seed * 1000 + i,
                       "heads": sorted(set(rnd.randrange(1, nrec + 1) for _ in range(2))) if nrec else [],
